@@ -199,6 +199,49 @@ def h_protocol(off: int, a: int, b: int, c: int, indent: int) -> bool:
     return verdict(_protocol_ok(rec.log, off))
 
 
+def h_fallback_map(which: int, coro: bool, nl_param: bool) -> bool:
+    """
+    pre: 0 <= which < 8
+    post: _
+    """
+    # whatever makes the structured decompilation fail, the map returned with the SsbScript fallback points at the
+    # statements of the RETURNED text (the text starts with the marker / warning header)
+    import explorerscript.ssb_converting.ssb_decompiler as D
+    from explorerscript.ssb_converting.ssb_data_types import SsbRoutineInfo, SsbRoutineType, SsbCoroutine
+    from harness.hC06 import EXC
+
+    exc: Any = AssertionError
+    for k in range(8):
+        if which == k:
+            exc = EXC[k]
+
+    class G:
+        def __init__(self, *a: Any, **kw: Any) -> None:
+            raise exc("forced")
+
+    og = D.SsbGraphMinimizer
+    D.SsbGraphMinimizer = G  # type: ignore
+    try:
+        p0: Any = SsbOpParamConstString("x\ny") if nl_param else 4
+        ops = [[SsbOperation(0, SsbOpCode(-1, "first"), [p0]), SsbOperation(1, SsbOpCode(-1, "Jump"), [0])],
+               [SsbOperation(2, SsbOpCode(-1, "second"), []), SsbOperation(3, SsbOpCode(-1, "End"), [])]]
+        kind = SsbRoutineType.COROUTINE if coro else SsbRoutineType.GENERIC
+        coros = [SsbCoroutine(0, "CA"), SsbCoroutine(1, "CB")] if coro else []
+        d = D.ExplorerScriptSsbDecompiler([SsbRoutineInfo(kind, 0), SsbRoutineInfo(kind, 0)], ops, coros, "$P",
+                                          DungeonModeConstants("a", "b", "c", "d"))
+        text, sm = d.convert()
+    finally:
+        D.SsbGraphMinimizer = og  # type: ignore
+    lines = text.split("\n")
+    want = {0: "first(", 1: "Jump(", 2: "second(", 3: "End("}
+    ok = text.startswith("//?: is-ssb-script: true\n")
+    n = 0
+    for off, m in sm:
+        n += 1
+        ok = ok and off in want and 0 <= m.line < len(lines) and lines[m.line][m.column:].startswith(want[off])
+    return verdict(ok and n == 4)
+
+
 OBLIGATIONS = [
     {"id": "C09.S1a", "module": __name__, "func": "h_line_step",
      "what": "inductive step: from any writer state with line == 1 + newlines written, write_stmnt(s, line) keeps the "
@@ -232,4 +275,14 @@ OBLIGATIONS = [
                  "explorerscript.ssb_converting.decompiler.write_handlers.simple_ops.flag.FlagSimpleOpWriteHandler.write_content",
                  "explorerscript.ssb_script.ssb_converting.ssb_decompiler.SsbScriptSsbDecompiler._read_op"],
      "stubs": ["decompiler and graph vertex replaced by recording stand-ins; igraph-driven handlers are outside the claim"]},
+    {"id": "C09.S3", "module": __name__, "func": "h_fallback_map",
+     "what": "fallback output: the source map returned together with the marked SsbScript text has one entry per op and "
+             "each points at that op's statement in the returned text (header lines included), for every exception type "
+             "that triggers the fallback, generic and coroutine routine sets, with and without a multi-line parameter",
+     "timeout": {"quick": 200, "thorough": 600},
+     "bounds": "8 exception types x generic/coroutine x multi-line parameter (all symbolic), fixed 2-routine input",
+     "encodes": ["explorerscript.ssb_converting.ssb_decompiler.ExplorerScriptSsbDecompiler.convert",
+                 "explorerscript.ssb_script.ssb_converting.ssb_decompiler.SsbScriptSsbDecompiler.convert",
+                 "explorerscript.ssb_script.ssb_converting.ssb_decompiler.SsbScriptSsbDecompiler._read_op"],
+     "stubs": ["SsbGraphMinimizer replaced by a stub raising the chosen exception"]},
 ]
